@@ -39,7 +39,7 @@ type CH struct {
 	Acts      []Act `json:"acts"`
 }
 
-const ruleClient = "tier 2 (black box): the real client.HTTPClient with drawn options (read preference, 0-1 retries, discovery on/off, health checks on/off) against 2-4 httptest servers running the REAL api/apihttp handlers over a scripted cluster state (who leads; per server: ok / answers 503 / answers 400 / drops the connection); rapid draws sequences of Add, AddBulk, MembershipDigest, Incremental, Ping and state changes (leader moves, server modes). Oracle: every insertion request observed at a server was sent to a node the client believed leader before or after that call; an insertion reported successful was executed by the real leader exactly once; a read is only sent to nodes permitted by the preference (by the client's own role view) and never to a node it holds dead at that moment without having re-checked it; after the leader moves (old leader alive and answering 'not leader', or failing) with discovery enabled the next two insertions make the client reach the new leader; every call returns within 15 s and causes at most (retries+1)*(servers+1)+3*servers+4 requests. Non-trivial: a leader change or a failing server precedes a successful call. distinct = FNV-64 of the case."
+const ruleClient = "tier 2 (black box): the real client.HTTPClient with drawn options (read preference, 0-1 retries, discovery on/off, health checks on/off) against 2-4 httptest servers running the REAL api/apihttp handlers over a scripted cluster state (who leads; per server: ok / answers 503 / answers 400 / drops the connection); rapid draws sequences of Add, AddBulk, MembershipDigest, Incremental, Ping and state changes (leader moves, server modes). Oracle: every insertion request observed at a server was sent to a node the client believed leader before or after that call; an insertion reported successful was executed by the real leader exactly once; a read is only sent to nodes permitted by the preference (by the client's own role view) and never to a node it holds dead at that moment without having re-checked it; in any period in which every server answers and nothing changes the third consecutive insertion attempt at the latest must succeed (through discovery, or through the redirect of the believed leader); every call returns within 15 s and causes at most (retries+1)*(servers+1)+3*servers+4 requests. Non-trivial: a leader change or a failing server precedes a successful call. distinct = FNV-64 of the case."
 
 type cluster struct {
 	mu     sync.Mutex
@@ -136,8 +136,8 @@ func TestClient(t *testing.T) {
 	pbt.Run(t, rec, func(rt *rapid.T) CH {
 		h := CH{Servers: rapid.IntRange(2, 4).Draw(rt, "servers"), Pref: rapid.IntRange(0, 4).Draw(rt, "pref"),
 			Retries: rapid.SampledFrom([]int{0, 0, 0, 0, 0, 0, 1}).Draw(rt, "retries"), Discovery: rapid.Bool().Draw(rt, "discovery"), Health: rapid.IntRange(0, 3).Draw(rt, "health") == 0}
-		for i, n := 0, rapid.IntRange(3, 10).Draw(rt, "nacts"); i < n; i++ {
-			a := Act{Op: rapid.SampledFrom([]string{"add", "add", "add", "bulk", "member", "member", "incr", "ping", "leader", "mode", "mode"}).Draw(rt, "op")}
+		for i, n := 0, rapid.IntRange(4, 12).Draw(rt, "nacts"); i < n; i++ {
+			a := Act{Op: rapid.SampledFrom([]string{"add", "add", "add", "add", "add", "bulk", "member", "incr", "ping", "leader", "mode", "mode"}).Draw(rt, "op")}
 			a.Server = rapid.IntRange(0, h.Servers-1).Draw(rt, "server")
 			if a.Op == "mode" {
 				a.Mode = rapid.SampledFrom([]string{"ok", "ok", "503", "400", "drop"}).Draw(rt, "mode")
@@ -202,7 +202,12 @@ func execClient(h CH, rec *pbt.Rec) error {
 	if err != nil {
 		return &pbt.Unsettled{Why: "client: " + err.Error()}
 	}
-	defer cl.Close()
+	stuck := false
+	defer func() {
+		if !stuck { // a call that never returned still uses the client: leave it alone
+			cl.Close()
+		}
+	}()
 	top := cl.VerifTopology()
 	believed := func() string {
 		e, _ := top.Primary()
@@ -220,7 +225,8 @@ func execClient(h CH, rec *pbt.Rec) error {
 		return -1
 	}
 	nt, fault := false, false
-	sinceMove := -1 // insertions attempted since the leader last moved (-1: never moved)
+	sinceMove := -1  // insertions attempted since the leader last moved (-1: never moved)
+	stableWrites := 0 // consecutive insertion attempts since the cluster state last changed, all servers answering
 	for ai, a := range h.Acts {
 		switch a.Op {
 		case "leader":
@@ -229,11 +235,15 @@ func execClient(h CH, rec *pbt.Rec) error {
 				c.leader = a.Server
 				sinceMove = 0
 				fault = true
+				stableWrites = 0
 			}
 			c.mu.Unlock()
 			continue
 		case "mode":
 			c.mu.Lock()
+			if c.mode[a.Server] != a.Mode {
+				stableWrites = 0
+			}
 			c.mode[a.Server] = a.Mode
 			if a.Mode != "ok" {
 				fault = true
@@ -254,6 +264,8 @@ func execClient(h CH, rec *pbt.Rec) error {
 		leaderOK := c.mode[leader] == "ok"
 		c.mu.Unlock()
 		before := believed()
+		_, perr := top.Primary()
+		primaryHeldDead := perr == client.ErrPrimaryDead
 		// the client's own view of roles and deadness just before a read
 		type view struct {
 			dead    bool
@@ -265,18 +277,31 @@ func execClient(h CH, rec *pbt.Rec) error {
 		}
 		start := time.Now()
 		var callErr error
-		switch a.Op {
-		case "add":
-			_, callErr = cl.Add("event")
-		case "bulk":
-			_, callErr = cl.AddBulk([]string{"a", "b"})
-		case "member":
-			v := uint64(1)
-			_, callErr = cl.MembershipDigest(rig.Dg(fixtureDigest), &v)
-		case "incr":
-			_, callErr = cl.Incremental(0, 1)
-		case "ping":
-			callErr = cl.Ping()
+		done := make(chan struct{})
+		go func() {
+			defer close(done)
+			switch a.Op {
+			case "add":
+				_, callErr = cl.Add("event")
+			case "bulk":
+				_, callErr = cl.AddBulk([]string{"a", "b"})
+			case "member":
+				v := uint64(1)
+				_, callErr = cl.MembershipDigest(rig.Dg(fixtureDigest), &v)
+			case "incr":
+				_, callErr = cl.Incremental(0, 1)
+			case "ping":
+				callErr = cl.Ping()
+			}
+		}()
+		select {
+		case <-done:
+		case <-time.After(30 * time.Second):
+			c.mu.Lock()
+			nreq := len(c.log)
+			c.mu.Unlock()
+			stuck = true
+			return fmt.Errorf("act %d %s (leader is server %d, modes %v, discovery=%v health=%v retries=%d pref=%s): the call has not returned after 30 s and %d requests: it does not terminate within the configured number of attempts", ai, a.Op, leader, c.mode, h.Discovery, h.Health, h.Retries, prefNames[h.Pref], nreq)
 		}
 		took := time.Since(start)
 		after := believed()
@@ -333,11 +358,20 @@ func execClient(h CH, rec *pbt.Rec) error {
 			if sinceMove >= 0 {
 				sinceMove++
 			}
-			if callErr != nil && allOK && h.Discovery && sinceMove >= 2 {
-				return fmt.Errorf("%s: the leader moved %d insertions ago, every server answers, discovery is enabled, and the insertion still fails: %v", tag, sinceMove, callErr)
-			}
 			if callErr == nil {
 				sinceMove = -1
+			}
+			// Convergence: while every server answers and nothing changes, the client must
+			// find the leader by its third insertion attempt, through discovery when it is
+			// enabled, or through the redirect of the node it believes to be the leader
+			// (which answers, unless the client holds it dead and has nothing to re-check it with).
+			if allOK {
+				stableWrites++
+			} else {
+				stableWrites = 0
+			}
+			if callErr != nil && allOK && stableWrites >= 3 && (h.Discovery || !primaryHeldDead) {
+				return fmt.Errorf("%s: every server has been answering for %d consecutive insertion attempts and nothing changed meanwhile, yet the client still does not reach the leader: %v", tag, stableWrites, callErr)
 			}
 		}
 		if callErr == nil && fault && leaderOK {
